@@ -79,6 +79,7 @@ TimeOk(t) == /\ t[1] \in {"naive", "aware"} /\ t[3] \in 0..86399 /\ t[4] \in 0..
 ZoneVerdict(o) ==
     LET z == ZoneOfSpelling(o.z2) IN
     IF z = <<"undefined">> \/ ~TimeOk(o.t) \/ o.op \notin Ops THEN "bad_input"
+    ELSE IF ~Claimed(o.op, o.z2) THEN "domain"
     ELSE LET want == Answer(o.op, o.t, z, o.sys) IN
          IF want = Undefined3 THEN "domain"            \* a wall clock the target zone skips or repeats: not claimed, the driver drops the line
          ELSE IF Same(o.out, want) THEN ""
